@@ -480,6 +480,20 @@ func mergeSchemaSlice(schemas []*IntrospectionQueryResult, mode MergeMode) (*Int
 	if len(schemas) == 0 {
 		return nil, errors.New("no schemas")
 	}
+	// Folding pairwise forgets what earlier schemas lacked: a conflict between
+	// two schemas can be hidden (or surfaced) by what was merged in between, so
+	// the outcome would depend on how services and versions are named. Check
+	// every pair first; the fold below then cannot fail and its result does
+	// not depend on the order.
+	if len(schemas) > 2 {
+		for i := range schemas {
+			for j := i + 1; j < len(schemas); j++ {
+				if _, err := mergeSchemas(schemas[i], schemas[j], mode); err != nil {
+					return nil, err
+				}
+			}
+		}
+	}
 	merged := schemas[0]
 	for _, schema := range schemas[1:] {
 		var err error
